@@ -979,11 +979,13 @@ class AdapterRegistry(BaseAdapterRegistry):
 class VerifyingAdapterLookup(AdapterLookupBase, VerifyingBase):
 
     def changed(self, originally_changed):
+        # A registry above us may have changed its bases since we last
+        # verified, so our resolution order may be out of date. This
+        # must also be done for our own registry's changes: the call
+        # below takes a new snapshot of the generations, after which
+        # ``_verify`` no longer sees that an ancestor changed.
         registry = self._registry
-        if originally_changed is not registry:
-            # Called from ``_verify``: a registry above us changed, possibly
-            # its bases, so our resolution order may be out of date too.
-            registry.ro = ro.ro(registry)
+        registry.ro = ro.ro(registry)
         super().changed(originally_changed)
 
 
